@@ -12,6 +12,7 @@
  *        TLS layer underneath behaves: the record is decrypted by the first read and the rest sits in the TLS
  *        library's buffer, the socket does not become readable again for it
  *        hostile=1: the stream is not a valid one; only robustness is judged (C02)
+ *        wr=1: responses echo the request payload, and everything the library writes after its handshake response is logged (Wr events)
  *   K <bid> <len>        declare a pattern blob (abbreviated as a run in the trace)
  *   S <hex>              append bytes to the stream
  *   P <bid> <len>        append the pattern blob bytes to the stream
@@ -39,7 +40,7 @@ static size_t chunks[4096];
 static int nchunks, curchunk;
 static size_t chunk_left;
 static int chunk_open, accepted, closed, cfd = -1;
-static int edge, signalled_read, ws, httplen, role, hostile, lfd = -1;     /* edge mode: a read has been made since the last arrival */
+static int edge, signalled_read, ws, httplen, role, hostile, wrlog, lfd = -1;     /* edge mode: a read has been made since the last arrival */
 static struct { int bid; size_t len; } blobs[32];
 static int nblobs;
 
@@ -129,6 +130,13 @@ static void patch_accept(const uint8_t *req, size_t n) {
 ssize_t __wrap_coap_socket_write(coap_socket_t *sock, const uint8_t *data, size_t data_len) {
   sock->flags &= ~(COAP_SOCKET_WANT_WRITE | COAP_SOCKET_CAN_WRITE);
   if (role && ws && data_len > 20 && !memcmp(data, "GET ", 4)) patch_accept(data, data_len);
+  if (wrlog && !role && sim_trace && !(data_len > 4 && !memcmp(data, "HTTP", 4))) {
+    /* what the library writes to the stream (wr=1): judged as framing by Trace_Stream (the write side of C01) */
+    size_t i;
+    fputs("{\"e\":\"Wr\",\"b\":[", sim_trace);
+    for (i = 0; i < data_len; i++) fprintf(sim_trace, "%s%u", i ? "," : "", data[i]);
+    fputs("]}\n", sim_trace);
+  }
   return (ssize_t)data_len;
 }
 
@@ -168,6 +176,7 @@ static void h_req(coap_resource_t *r, coap_session_t *s, const coap_pdu_t *req, 
   if (coap_get_data(req, &dl, &dp) && dl) atoms(dp, dl); else fputs("[]", sim_trace);
   fputs("}\n", sim_trace);
   coap_pdu_set_code(resp, COAP_RESPONSE_CODE_CHANGED);
+  if (wrlog && dl) coap_add_data(resp, dl, dp);          /* the response's size follows the request's */
 }
 
 static void h_ping(coap_session_t *s, const coap_pdu_t *rcv, const coap_mid_t mid) {
@@ -336,6 +345,8 @@ int main(int argc, char **argv) {
       role = p ? atoi(p + 5) : 0;
       p = strstr(line, "hostile=");
       hostile = p ? atoi(p + 8) : 0;
+      p = strstr(line, "wr=");
+      wrlog = p ? atoi(p + 3) : 0;
       slen = 0; nchunks = 0; nblobs = 0;
       sim_reset(1000);
     } else if (line[0] == 'K') {
